@@ -64,6 +64,7 @@ func main() {
 		*p = a
 	}
 	replace := map[string]string{}
+	usesTryLock := false
 	os.MkdirAll(*out, 0o755)
 	nfiles, ngo, nsel, nchan := 0, 0, 0, 0
 	for _, p := range strings.Split(*pkgs, ",") {
@@ -78,6 +79,9 @@ func main() {
 				continue
 			}
 			src := filepath.Join(dir, n)
+			if raw, err := os.ReadFile(src); err == nil && (bytes.Contains(raw, []byte(".TryLock(")) || bytes.Contains(raw, []byte(".TryRLock("))) {
+				usesTryLock = true
+			}
 			in := &inst{fset: token.NewFileSet(), file: src}
 			b, err := in.rewrite()
 			if err != nil {
@@ -104,6 +108,14 @@ func main() {
 				replace[filepath.Join(*repo, "zz_verif", sp, e.Name())] = filepath.Join(*shim, sp, e.Name())
 			}
 		}
+	}
+	if usesTryLock {
+		// the outcome of TryLock depends on who holds the lock right now: make "lock held" a visible state
+		hint := filepath.Join(*out, "zz_tryhint.go")
+		if err := os.WriteFile(hint, []byte("package vrt\n\nfunc init() { AcquirePoints = true }\n"), 0o644); err != nil {
+			fatalf("%v", err)
+		}
+		replace[filepath.Join(*repo, "zz_verif", "vrt", "zz_tryhint.go")] = hint
 	}
 	if *extra != "" {
 		for _, kv := range strings.Split(*extra, ",") {
